@@ -5,7 +5,7 @@ from .traffic import LAYOUTS, ROUTINGS, POLICIES, RUNS
 
 def gen_graph(rng, idx):
     n, ppn = rng.choice([(1, 1), (2, 2), (3, 1), (4, 2), (4, 4), (6, 3), (5, 1), (8, 2)])
-    cb = idx % 2
+    cb = idx % 3          # 0: async_union only, 1: async_union_and_execute only, 2: both kinds on one container
     epochs = rng.choice([1, 2, 3])
     edges = []
     base = rng.choice([0, 1000])
@@ -35,7 +35,7 @@ def gen_graph(rng, idx):
         for a, b in es:
             issuers = [rng.randrange(n)] if rng.random() < 0.7 else list(range(n))[:rng.choice([2, n])]   # the same edge from several ranks
             for r in issuers:
-                edges.append((e, r, a, b, cb))
+                edges.append((e, r, a, b, cb if cb < 2 else ((1 if e > 1 else 0) if rng.random() < 0.7 else rng.randrange(2))))
     return {'n': n, 'ppn': ppn, 'routing': rng.choice(ROUTINGS), 'bufkb': rng.choice([0, 1, 16384]), 'policy': rng.choice(POLICIES),
             'seed': rng.randrange(1, 1 << 30), 'cb': cb, 'epochs': epochs, 'edges': edges}
 
@@ -190,14 +190,17 @@ def oracle(g, r):
             got_cb += [tuple(map(int, t.split(','))) for t in CB.get((e, rk), [])]
         if g['cb']:
             cb_edges += got_cb
+            issued_cb = {(a, b) for (ep, rk, a, b, c) in g['edges'] if ep == e and c}
             for ab in got_cb:
-                if ab not in issued:
+                if ab not in issued_cb:
                     F('callback reported (%d,%d), which was not issued in epoch %d' % (ab[0], ab[1], e), epoch=e); break
             t = UF()
             for a, b in cb_edges:
                 if not t.union(a, b):
                     F('callback edges contain a cycle: (%d,%d) joined two items that a reported merge had already joined' % (a, b), epoch=e); break
-            if len(cb_edges) != len(items) - comps:
+            # (with both kinds of union on one container the plain ones merge without reporting: the exact callbacks are then
+            # decided by the replay of the recorded visits against DisjointLocal.lcb)
+            if g['cb'] == 1 and len(cb_edges) != len(items) - comps:
                 F('%d merge callbacks so far, %d items in %d components need exactly %d' % (len(cb_edges), len(items), comps, len(items) - comps), epoch=e)
         elif got_cb:
             F('callbacks ran although async_union was used', epoch=e)
